@@ -64,6 +64,9 @@ func (g *goGen) imp(path, alias string) string {
 }
 
 func (g *goGen) expr(v *MVal) string {
+	if v.Kind == "raw" {
+		return v.Str
+	}
 	t := v.Type
 	named := false
 	if _, ok := t.(*types.Named); ok {
